@@ -60,6 +60,23 @@ def failure_props(f, res):
     return tags
 
 
+def body_similarity(g, res, addr, base_toks):
+    """token similarity (0..1) of the current body of function `addr` to the body it had when its contract was admitted"""
+    import difflib
+    from rustlex import lex as _lex
+    owner = next((f for f in res.fns if f.addr == addr and hasattr(f, '_seg_range')), None)
+    body = ''.join(sg.text for sg in g.segs[owner._seg_range[0]:owner._seg_range[1]] if sg.origin == 'src') if owner else ''
+    cur = [t.text for t in _lex(body) if t.kind not in ('ws', 'comment')]
+    return difflib.SequenceMatcher(None, base_toks[addr].split(' '), cur, autojunk=False).ratio()
+
+
+def load_base_tokens():
+    try:
+        return json.load(open(os.path.join(VERIF, 'contracts', 'baseline.json'))).get('fn_tokens', {})
+    except Exception:
+        return {}
+
+
 def scan_assumptions(res):
     """mechanical scan of the generated text for everything that is assumed, not proved"""
     text = res.text
@@ -175,6 +192,25 @@ def main():
             violations = keep
             for v in undecided:
                 run.tool_errors.append('undecided: %s fails in %s, which calls (or is) a function without contract (%s)' % (v.oid, v.addr, ', '.join(sorted(names))))
+    # Re-implementation caveat: the proof hints (anchors, asserted intermediate facts, loop invariants) were written for the body a function
+    # had when its contract was admitted.  If the body has been REWRITTEN (token similarity to the baseline body below 0.5; every edit-sized
+    # change in the corpus is above 0.59, the two re-implementations in it are at 0.28 / 0.30), a failing Verus obligation there may only
+    # mean "needs new hints": undecided (exit 2), not a violation.  Kani harnesses and structural obligations are not affected.
+    base_toks = load_base_tokens()
+    if base_toks and violations:
+        sim = {}
+        keep = []
+        for v in violations:
+            if v.kind == 'ownership' or v.addr not in base_toks:
+                keep.append(v); continue
+            if v.addr not in sim:
+                sim[v.addr] = body_similarity(g, res, v.addr, base_toks)
+            if sim[v.addr] < 0.5:
+                undecided.append(v)
+                run.tool_errors.append('undecided: %s fails in %s, whose body was re-implemented (token similarity to the admitted body %.2f < 0.50): the proof hints may not carry over' % (v.oid, v.addr, sim[v.addr]))
+            else:
+                keep.append(v)
+        violations = keep
     # Trusted / external functions are assumed, not proved: if the source text of one that this property leans on
     # has changed since its contract was written, the assumption is no longer backed by an audit -> undecided.
     try:
@@ -314,7 +350,7 @@ def main():
 
 COMMON_ASSUMPTIONS = [
     'Verus, Z3, vstd, rustc are sound; Kani/CBMC where a harness is listed',
-    'the generated file is /repo/src copied token for token except rewrite rules R1..R29 (DESIGN.md 2.2 and 13); hit counts in coverage.rewrite_rule_hits',
+    'the generated file is /repo/src copied token for token except rewrite rules R1..R32 (DESIGN.md 2.2 and 13); hit counts in coverage.rewrite_rule_hits',
     'assumed std contracts (spec/std_specs.rs): VecDeque::{as_slices,capacity,shrink_to,shrink_to_fit}, Vec::capacity, Vec::extend(&[u8]), HashMap<String,_> looked up by &str (String key model, view injectivity), Result::unwrap_or_else, convert::identity, mem::take, str::from_utf8, Instant::now, iter::once, BTreeSet::{first,pop_first,len}, BTreeSet::range((Excluded(k),Unbounded)).next() (R26 shim), HashMap::get_mut, fs::remove_file, <File as Seek>::seek(SeekFrom::Start(n)), read_dir (R29 stand-in DirIter over the ghost listing), DirEntry::{file_type,file_name}, FileType::is_file, OsStr::to_str, <OsString as Deref>::deref, Path::to_path_buf, String: Ord obeys the vstd cmp laws; bytes::Buf (R10), (start..).zip(it) (R19) and RangeBounds::{start_bound,end_bound} through a generic bound = the spec value vstd gives (R22) in spec/vshim.rs; derived Default/PartialEq impls are field-wise',
     'shims of R6/R7 (spec/vshim.rs): u16/u32/u64 to/from little-endian bytes = vstd::bytes specs; Vec::drain(..n) / VecDeque::drain(..n) remove the first n elements',
     'crc32 is an uninterpreted function of (payload, type byte) (R9); nothing is assumed about it',
@@ -348,10 +384,20 @@ def run_canary(res, build, prop):
     # functions whose failure could not be mapped still show up as unsuccessful in fn_times
     vacuous = []
     n = 0
+    # a canary copy that ran out of resource limit did NOT verify `ensures false` either: only a copy Verus reports as verified is vacuous
+    unverified = set(k for k, v in run2.fn_times.items() if not v.get('success'))
+
+    def canary_key(addr):
+        # 'rolling/directory.rs::Directory::open#canary' -> '::rolling::directory::Directory::open__verif_canary'
+        a = addr.split('#')[0]
+        f, _, rest = a.partition('.rs::')
+        mod = '::'.join(x for x in f.split('/') if x not in ('lib', 'mod'))
+        return '::' + (mod + '::' if mod else '') + rest + '__verif_canary'
     for f in res2.fns:
         if f.status == 'verify' and getattr(f, 'canary', False):
             n += 1
-            if f.addr not in failed_fns:
+            ck = canary_key(f.addr)
+            if f.addr not in failed_fns and not any(u.endswith(ck) for u in unverified):
                 vacuous.append(f.addr)
     # rlimit-exceeded functions are reported as tool errors by the runner: those are not "verified false"
     rl = [t for t in run2.tool_errors if 'rlimit' in t.lower() or 'resource limit' in t.lower()]
